@@ -1489,9 +1489,12 @@ class SWAT(Command):
     def __init__(self, shx: 'Shelxfile', spline: List[str]):
         super().__init__(shx, spline)
         p, _ = self._parse_line(spline)
+        self.g = 0.0
+        self.U = 2.0
+        if len(p) > 0:
+            self.g = p[0]
         if len(p) > 1:
-            self.g = p.pop(0)
-            self.U = p.pop(0)
+            self.U = p[1]
 
 
 class LATT(Command):
